@@ -1820,6 +1820,63 @@ def o_contains_glue(mir, tier, seed):
     return dict(theory='Int (positions as 0/1/2) + Bool; coordinate_position and the members\' own contains uninterpreted', functions=['Contains<Coord> for Polygon', 'Contains<Coord> for MultiPolygon', 'Contains<MultiPoint> for MultiPolygon'], paths=npaths, status=st, info=info, model=None, replay=('position_assembly', ''))
 
 
+@obligation('C02', 'rect_and_line_position_real', 'over the reals, for ANY coordinates: Rect (min < max on both axes) classifies a query as interior exactly when it is strictly inside on both axes, as boundary (one count) exactly when it is in the closed box but not strictly inside, and contributes nothing otherwise - corners count ONCE; Line (orient2d = exact sign, point_in_rect exact): a zero-length line is its point, otherwise the two end points are boundary (one count), every other point of the segment is interior, nothing else is (each path re-executed from scratch)')
+def o_fixed_position(mir, tier, seed):
+    T = RealTheory()
+    CP = r'algorithm::coordinate_position::<impl at [^>]*>::calculate_coordinate_position'
+    bad, npaths = [], 0
+    q = coord(T, 'fq_')
+    state = {}
+
+    def args_for(shape):
+        def make():
+            state['inside'], state['count'] = [False], [0]
+            return [Ref(lambda: shape), Ref(lambda: list(q)), Ref(lambda: state['inside'][0], lambda v: state['inside'].__setitem__(0, v)),
+                    Ref(lambda: state['count'][0], lambda v: state['count'].__setitem__(0, v))]
+        return make
+    collect = lambda: (state['inside'][0], state['count'][0])
+    as_bool = lambda v: z3.BoolVal(v) if isinstance(v, bool) else v
+    # Rect
+    mn, mx = coord(T, 'rmin_'), coord(T, 'rmax_')
+    valid = z3.And(mn[0] < mx[0], mn[1] < mx[1])
+    uf = {'re:geo_types::Rect::<\\w+>::min': lambda ip, d: list(mn), 're:geo_types::Rect::<\\w+>::max': lambda ip, d: list(mx)}
+    ip = Interp(mir, T, EXTRA, uf)
+    res = ip.explore(mir.find('geo', CP, sig=r'_1: &geo_types::Rect<T>'), args_for(('rect',)), collect)
+    npaths += len(res)
+    closed = z3.And(mn[0] <= q[0], q[0] <= mx[0], mn[1] <= q[1], q[1] <= mx[1])
+    strict = z3.And(mn[0] < q[0], q[0] < mx[0], mn[1] < q[1], q[1] < mx[1])
+    bad.append(z3.And(valid, z3.Not(z3.Or([pc for pc, _, _ in res]))))
+    for pc, _, (ins, cnt) in res:
+        bad.append(z3.And(valid, pc, z3.Or(as_bool(ins) != strict, cnt != z3.If(z3.And(closed, z3.Not(strict)), 1, 0))))
+    # Line
+    a, b = coord(T, 'la_'), coord(T, 'lb_')
+    cross = lambda u, v, w: (v[0] - u[0]) * (w[1] - u[1]) - (v[1] - u[1]) * (w[0] - u[0])
+    between = lambda lo, hi, x: z3.Or(z3.And(lo <= x, x <= hi), z3.And(hi <= x, x <= lo))
+
+    def orient(ip, d):
+        x = cross(deref(d[0]), deref(d[1]), deref(d[2]))
+        return ('fork', [(x > 0, Enum('CounterClockwise')), (x < 0, Enum('Clockwise')), (x == 0, Enum('Collinear'))])
+    pir = lambda ip, d: z3.And(between(deref(d[1])[0], deref(d[2])[0], deref(d[0])[0]), between(deref(d[1])[1], deref(d[2])[1], deref(d[0])[1]))
+    extra = dict(EXTRA)
+    extra[r'<geo_types::Line<T> as (algorithm::)?intersects::Intersects<geo_types::Coord<T>>>::intersects'] = ('geo', r'algorithm::intersects::line::<impl at [^>]*>::intersects', r'_1: &geo_types::Line<T>, _2: &geo_types::Coord<T>')
+    extra[r'<geo_types::Coord<T> as (algorithm::)?coordinate_position::CoordinatePosition>::calculate_coordinate_position'] = ('geo', CP, r'_1: &geo_types::Coord<T>')
+    ip = Interp(mir, T, extra, {'re:<<T as GeoNum>::Ker as (algorithm::)?kernels::Kernel<T>>::orient2d': orient, 're:(super::)?point_in_rect::<\\w+>': pir})
+    line = [list(a), list(b)]
+    res = ip.explore(mir.find('geo', CP, sig=r'_1: &geo_types::Line<T>'), args_for(line), collect)
+    npaths += len(res)
+    same = lambda u, v: z3.And(u[0] == v[0], u[1] == v[1])
+    degenerate = same(a, b)
+    on_seg = z3.And(cross(a, b, q) == 0, between(a[0], b[0], q[0]), between(a[1], b[1], q[1]))
+    at_end = z3.Or(same(q, a), same(q, b))
+    w_inside = z3.If(degenerate, same(q, a), z3.And(on_seg, z3.Not(at_end)))
+    w_count = z3.If(z3.And(z3.Not(degenerate), at_end), 1, 0)
+    bad.append(z3.Not(z3.Or([pc for pc, _, _ in res])))
+    for pc, _, (ins, cnt) in res:
+        bad.append(z3.And(pc, z3.Or(as_bool(ins) != w_inside, cnt != w_count)))
+    st, info, model = check_unsat('rect_and_line_position_real', [z3.Or(bad)], timeout_s=60)
+    return dict(theory='Real (nonlinear only in the cross product); orient2d and point_in_rect interpreted exactly', functions=['CoordinatePosition for Rect', 'CoordinatePosition for Line', 'CoordinatePosition for Coord', 'Intersects<Coord> for Line'], paths=npaths, status=st, info=info, model=None, replay=('position_assembly', ''))
+
+
 # ---- C02: how coordinate_position is assembled from ring / member positions
 
 @obligation('C02', 'coordinate_position_assembly', 'with the position of the query relative to each ring / member uninterpreted (three-valued): Polygon (0-3 holes, holes pairwise not overlapping) reports inside / boundary / neither exactly as "inside the shell and outside every hole" / "on the shell or on a hole" / otherwise, nothing for an empty polygon; MultiPolygon (1-3 members) is inside if any member is, and adds ONE boundary count if any member has the query on its boundary; MultiLineString and GeometryCollection add up their members\' counts; the trait method maps (inside flag, boundary count 0-4) to OnBoundary for odd counts, else Inside / Outside (each path re-executed from scratch)')
